@@ -103,8 +103,46 @@ def run(pm, ctx):
         ctx.ok("C17-c", "linear_prox_grad: zero-norm rows divided by 1")
     else:
         ctx.violation("C17-c", pu.relpath, "linear_prox_grad", norm_src(divs[0]) if divs else "division", "zero rows are divided by their zero norm", line=lf.lineno)
+    # ---- e raw exponentials
+    ctx.rule("C17-e", "np.exp of an unbounded value overflows to inf for moderately scaled inputs (inf/inf = NaN in a hand-rolled softmax)", floor=0)
+    n_exp = 0
+    for u in pm.units.values():
+        for n in ast.walk(u.tree):
+            if isinstance(n, ast.Call) and (call_name(n) or "").split(".")[-1] in ("exp", "exp2", "expm1", "sinh", "cosh") and (call_name(n) or "").split(".")[0] in ("np", "numpy", "math"):
+                n_exp += 1
+                arg = n.args[0] if n.args else None
+                f = next((p_ for p_ in parents(n) if isinstance(p_, ast.FunctionDef)), None)
+                site = f"{u.relpath}:{f.name if f else '<module>'}: {norm_src(n)[:50]}"
+                if arg is not None and _bounded_above(arg, f):
+                    ctx.ok("C17-e", site, "argument is shifted by its maximum / non-positive")
+                else:
+                    st = n
+                    while not isinstance(st, ast.stmt):
+                        st = st._parent
+                    ctx.violation("C17-e", u.relpath, f.name if f else "<module>", norm_src(st)[:160], f"{norm_src(n)[:60]} exponentiates a value that is not bounded above "
+                                  f"(no subtraction of the row maximum): it overflows to inf for large but legal inputs; use the max-shifted softmax", line=n.lineno, site=site)
+    if n_exp == 0:
+        ctx.ok("C17-e", "no raw exponential in the package (softmax comes from scikit-learn, which shifts by the maximum)")
     # ---- d division-site table
     division_table(pm, ctx, te)
+
+
+def _bounded_above(arg, f):
+    """x - x.max(...), x - np.max(x, ...), -abs(x), -x**2, -np.square(x): provably <= 0"""
+    if isinstance(arg, ast.BinOp) and isinstance(arg.op, ast.Sub):
+        r = arg.right
+        if isinstance(r, ast.Call) and ((isinstance(r.func, ast.Attribute) and r.func.attr == "max") or (call_name(r) or "").split(".")[-1] in ("max", "amax", "logsumexp")):
+            return True
+    if isinstance(arg, ast.UnaryOp) and isinstance(arg.op, ast.USub):
+        o = arg.operand
+        if isinstance(o, ast.Call) and (call_name(o) or "").split(".")[-1] in ("abs", "absolute", "square"):
+            return True
+        if isinstance(o, ast.BinOp) and isinstance(o.op, ast.Pow) and isinstance(o.right, ast.Constant) and o.right.value == 2:
+            return True
+    if isinstance(arg, ast.Name) and f is not None:
+        defs = [s for s in ast.walk(f) if isinstance(s, ast.Assign) and any(isinstance(t, ast.Name) and t.id == arg.id for t in s.targets)]
+        return bool(defs) and all(_bounded_above(d.value, None) for d in defs)
+    return False
 
 
 def classify_denominator(pm, u, f, den, te):
@@ -187,5 +225,6 @@ def controls(pm, tier):
         "C17-b", "Douglas divides by its bin memberships")
     mut(F, "        cluster_wise_estimates = p_y_x / p_y\n        if self.ovo:\n            alpha", "        cluster_wise_estimates = y_pred / p_y\n        if self.ovo:\n            alpha", "C17-c", "chi2 uses unclipped predictions")
     mut(P, "W / np.where(W_norms == 0, 1, W_norms)", "W / W_norms", "C17-c", "group lasso prox divides zero rows by zero")
+    mut(D, "        return softmax(logits / self.temperature), order", "        bins = np.exp(logits / self.temperature)\n        return bins / bins.sum(1, keepdims=True), order", "C17-e", "hand-rolled softmax without max shift")
     mut("gemclus.mlcl", "gradient[idx0] += factor * (y_pred[idx0] - y_pred[idx1])", "gradient[idx0] += factor * (y_pred[idx0] - y_pred[idx1]) / y_pred[idx0]", "C17-b", "mlcl divides by raw softmax outputs")
     return out
